@@ -50,9 +50,23 @@ let rec bval_of (s : Sexp.t) : bval =
 
 let sample_positions len = [0; 1; 2; len / 3; len / 2; len - 2; len - 1]
 
+(* largest node length inside a rope: bytes_of materialises every parent/unit it walks through *)
+let rec max_node (r : rope) : int =
+  let here = int_of_z (rlen r) in
+  match r with
+  | Owned _ | Zeroed _ -> here
+  | Slice (p, _, _) -> max here (max_node p)
+  | Concat (l, rr, _) -> max here (max (max_node l) (max_node rr))
+  | Tiled (u, _) -> max here (max_node u)
+
 let dump_rope (r : rope) : string =
   let len = int_of_z (rlen r) in
-  if len <= 4096 then Printf.sprintf "(b %d %s)" len (hex (bytes_of r))
+  if len <= 4096 && max_node r <= 65536 then Printf.sprintf "(b %d %s)" len (hex (bytes_of r))
+  else if len <= 4096 then
+    (* a small window into a huge lazy rope: read it byte by byte *)
+    Printf.sprintf "(b %d %s)" len
+      (String.concat "" (List.init len (fun i -> match byte_at r (z_of_int i) with
+           | Some b -> Printf.sprintf "%02x" (int_of_z b) | None -> "--")))
   else
     let samples = List.map (fun i -> match byte_at r (z_of_int i) with Some b -> Printf.sprintf "%02x" (int_of_z b) | None -> "--") (sample_positions len) in
     Printf.sprintf "(b %d ~%s)" len (String.concat "" samples)
@@ -129,7 +143,7 @@ let small_z (z : z) (bound : int) : bool =
   match z with Z0 -> true | Zpos p | Zneg p -> List.length (bits_of_pos p) <= 40 && int_of_pos p <= bound
 let rec ropes_small (v : bval) : bool =
   match v with
-  | BBin r -> small_z (rlen r) 65536
+  | BBin r -> small_z (rlen r) 65536 && max_node r <= 65536
   | BTup fs -> List.for_all ropes_small fs
   | _ -> true
 let spec_runnable (name : string) (v : bval) : bool =
